@@ -169,7 +169,33 @@ STRATEGIES = [
 ]
 
 
-def strategy_density(cfg, opts, pars, p4):
+def cc_config():
+    """4-body cascades, every vertex parity violating, spinning finals, written heavy-first (the builder then needs
+    cyclic transposes), charge conjugation applied on the helicity couplings (cp_trans: False)"""
+    pb = {"p_break": True}
+    cfg = {
+        "data": {"dat_order": ["B", "C", "D", "E"], "cp_trans": False},
+        "decay": {"A": [["R1", "E", pb], ["R3", "B", pb]], "R1": [["D", "R2", pb]], "R2": ["B", "C", pb], "R3": [["R4", "E", pb]], "R4": ["C", "D", pb]},
+        "particle": {"$top": {"A": {"J": 1, "P": -1, "mass": 6.0}},
+                     "$finals": {"B": {"J": 1, "P": -1, "mass": 1.0}, "C": {"J": 0.5, "P": -1, "mass": 1.0}, "D": {"J": 0.5, "P": -1, "mass": 0.5}, "E": {"J": 0, "P": -1, "mass": 0.5}},
+                     "R1": {"J": 1, "P": 1, "mass": 4.5, "width": 0.5}, "R2": {"J": 1.5, "P": 1, "mass": 3.0, "width": 0.5},
+                     "R3": {"J": 1, "P": 1, "mass": 3.5, "width": 0.5}, "R4": {"J": 1, "P": 1, "mass": 2.0, "width": 0.5}},
+    }
+    mf = {k: v["mass"] for k, v in cfg["particle"]["$finals"].items()}
+    return cfg, 6.0, mf, ((("B", "C"), "D"), "E")
+
+
+def cal_data(config, p4, extra):
+    data = config.data.cal_angle(p4, **extra) if extra else config.data.cal_angle(p4)
+    for k, v in (extra or {}).items():
+        try:
+            data[k] = v
+        except Exception:
+            pass
+    return data
+
+
+def strategy_density(cfg, opts, pars, p4, extra=None):
     from tf_pwa.config_loader import ConfigLoader
     from tf_pwa.data import LazyCall
     import copy
@@ -178,7 +204,7 @@ def strategy_density(cfg, opts, pars, p4):
     config = ConfigLoader(c)
     amp = config.get_amplitude()
     amp.set_params(pars)
-    data = config.data.cal_angle(p4)
+    data = cal_data(config, p4, extra)
     first = np.array(amp(data.eval() if isinstance(data, LazyCall) and not hasattr(amp, "cached_fun") else data))
     second = np.array(amp(data.eval() if isinstance(data, LazyCall) and not hasattr(amp, "cached_fun") else data))
     return first, second
@@ -187,12 +213,15 @@ def strategy_density(cfg, opts, pars, p4):
 def builder_and_strategy_cases(ctx, rnd, tier, cases):
     from tf_pwa.config_loader import ConfigLoader
     nev = 2
-    for tag, cfg, M0, mf, _tree in [c for c in configs(rnd) if c[4] is None]:
+    todo = [(tag, cfg, M0, mf, None, None) for tag, cfg, M0, mf, _tree in configs(rnd) if _tree is None]
+    ccfg, cM0, cmf, ctree = cc_config()
+    todo.append(("cc4", ccfg, cM0, cmf, ctree, {"charge_conjugation": np.array([-1.0, 1.0])}))
+    for tag, cfg, M0, mf, tree, extra in todo:
         config = ConfigLoader(cfg)
         amp = config.get_amplitude()
         pars = ampkit.random_params(amp, rnd)
-        p4 = ampkit.gen_events(M0, mf, nev, rnd.randrange(10 ** 6))
-        data = config.data.cal_angle(p4)
+        p4 = ampkit.gen_events(M0, mf, nev, rnd.randrange(10 ** 6)) if tree is None else ampkit.gen_tree_events(tree, mf, M0, nev, rnd.randrange(10 ** 6))
+        data = cal_data(config, p4, extra)
         with Capture() as cap:
             dens = np.array(amp(data))
         meta0 = {"config": cfg, "params": {k: float(v) for k, v in pars.items()}, "events": {k: v.tolist() for k, v in p4.items()}}
@@ -217,10 +246,17 @@ def builder_and_strategy_cases(ctx, rnd, tier, cases):
         # strategies: all must report the density rebuilt above
         for sname, opts in STRATEGIES:
             try:
-                first, second = strategy_density(cfg, opts, pars, p4)
+                if extra is not None and sname == "lazy_call":
+                    continue  # lazy data carry the extras through LazyCall.extra: covered by C18
+                first, second = strategy_density(cfg, opts, pars, p4, extra)
             except Exception as ex:
                 ctx.count("strategy_error:" + sname)
-                ctx.notes.append("strategy %s on %s raised %r" % (sname, tag, ex))
+                ctx.notes.append("strategy %s on %s raised %r" % (sname, tag, type(ex).__name__))
+                if extra is not None:
+                    # a strategy that raises on the charge-conjugation data declines (not applicable there): observation O4,
+                    # e.g. base_factor + allow_cc raises a broadcasting error in get_factor_angle_helicity_amp
+                    ctx.count("strategy_declined_with_extras:" + sname)
+                    continue
                 cases.append(("S_%s_%s_raise" % (tag, sname), "false = true", "reflexivity",
                               dict(meta0, layer="strategy", strategy=sname, options=opts, error=repr(ex))))
                 continue
